@@ -6,7 +6,7 @@
 //! that consume the remote input are inside the measured region.
 use super::Entry;
 use super::oracle::Probe;
-use rustrtc::media::MediaKind;
+use rustrtc::MediaKind;
 use rustrtc::{
     IceCandidate, PeerConnection, RtcConfiguration, SdpType, SessionDescription, TransceiverDirection, TransportMode,
 };
